@@ -369,7 +369,7 @@ def loop_frame(body_text):
         roots.add(m.group(1) or m.group(2))
         if m.group(3) and m.group(3).strip():
             through.add(m.group(2))
-    for m in re.finditer(r'\*\s*(?:--|\+\+)?\s*([A-Za-z_]\w*)\s*(?:[-+*/%&|^]|<<|>>)?=(?!=)', txt):
+    for m in re.finditer(r'(?:^|[;{}(,=])\s*\*\s*(?:--|\+\+)?\s*([A-Za-z_]\w*)\s*(?:[-+*/%&|^]|<<|>>)?=(?!=)', txt):
         roots.add(m.group(1))
         through.add(m.group(1))
     decls = set()
